@@ -1616,6 +1616,11 @@ lyds_merge_nodes2(struct lyd_node **first_dst, struct lyd_node **leader_dst,
     LY_ERR ret;
     struct rb_node *dst_iter;
 
+    /* the source nodes are sorted, the node following them is the one after the last node of the Red-black tree,
+     * it must be learned now because the last node may be moved in front of or among the destination nodes */
+    for (dst_iter = rbt_src; RBN_RIGHT(dst_iter); dst_iter = RBN_RIGHT(dst_iter)) {}
+    *next_p = RBN_DNODE(dst_iter)->next;
+
     /* merge first destination node, move source nodes which belongs before this node */
     ret = lyds_merge_nodes2_front(leader_dst, first_src, leader_src, &rbt_src, &dst_iter, next_p);
     LY_CHECK_GOTO(ret, cleanup);
